@@ -339,6 +339,12 @@ def init_flag(ctx):
     ok = any(t.attr == 'init' for t, v, s in attr_stores(ns.node)) and any(t.attr == 'statefunc' for t, v, s in attr_stores(ns.node))
     ctx.check(ok, f'{ns.qualname}:sets init and statefunc', ns.node, 'transition sets init and statefunc together',
               '_new_state does not set both init and statefunc', ns)
+    nscfg = CFG(ns.node, m, ns.module)
+    iset = [i for t, v, s in attr_stores(ns.node) if t.attr == 'init' and dotted(t.value) == 'self' and isinstance(v, ast.Constant) and v.value is True for i in nscfg.node_of(s)]
+    ctx.check(bool(iset) and nscfg.all_paths_pass([nscfg.entry], [nscfg.exit], iset, exc=False), f'{ns.qualname}:init is set on every transition', ns.node,
+              'self.init = True lies on every normal path through _new_state',
+              '_new_state can be passed without `self.init = True` (the store depends on a condition - e.g. on a transition callback being configured): '
+              'the first call of the new state does not see the init flag', ns)
     writers = [fi.name for fi in m.cls(SM).methods.values() for t, v, s in attr_stores(fi.node) if t.attr == 'statefunc' and dotted(t.value) == 'self']
     ctx.check(set(writers) <= {'_new_state'}, f'{SM}:statefunc has one writer', None, 'statefunc stored only in _new_state',
               f'statefunc is stored in {sorted(set(writers))}')
